@@ -2,23 +2,23 @@ CONSTANTS
   Procs = {1}
   Clients = {"c1", "c2"}
   Forms = {"v4"}
-  CCs = {"a"}
-  SVs = {"bare", "good"}
+  CCs = {}
+  SVs = {}
   Shorts = {}
   Protos = {"udp"}
-  Questions = {"q1"}
-  Entries = {"msg", "wire", "inline"}
-  Exempts = {}
+  Questions = {"q1", "al1"}
+  Entries = {"msg", "wire"}
+  Exempts = {"internal"}
   Odds = {FALSE}
-  Burst = 1
-  StoreCap = 1
-  EntryBurst = 0
+  Burst = 2
+  StoreCap = 2
+  EntryBurst = 1
   BigQs = {}
-  MaxOps = 2
+  MaxOps = 5
   MaxPend = 1
-  MaxAge = 1
+  MaxAge = 2
   TickSet = {1}
-  CleanSet = {1}
+  CleanSet = {}
   Atomic = "call"
   KeyByForm = TRUE
   ChargeOnReplay = FALSE
@@ -27,7 +27,7 @@ CONSTANTS
   SharedKey = FALSE
   ChargeBeforeFit = FALSE
   LimitInternal = FALSE
-  Aliases = {}
+  Aliases = {"al1"}
   AliasTarget = "q1"
 SPECIFICATION Spec
 INVARIANTS TypeOK OneChargePerQuestion DropIsSilent ClientWithinBudget NoSharedBucket RememberedIsOwn ExemptNeverLimited InternalNeverLimited
